@@ -27,7 +27,11 @@ def tighten(text, rng):
         la, fb = a[-1], b[0]
         sym = "<>=!&|^~+-*/?:"
         word = lambda c: c.isalnum() or c in "_.$@'"
-        unsafe = (la in sym and fb in sym) or (word(la) and word(fb)) or (la == "%" and (fb.isdigit() or fb in sym or fb == "(")) \
+        # two operator characters may touch unless together they begin one of the longer operators
+        multi = ("<<", ">>", "<<<", ">>>", "<=", ">=", "==", "!=", "&&", "||")
+        glue = a + fb if all(c in sym for c in a) else la + fb
+        unsafe = (la in sym and fb in sym and any(m.startswith(glue) for m in multi)) or (word(la) and word(fb)) \
+            or (la == "%" and (fb.isdigit() or fb in sym or fb == "(")) \
             or (fb == "%" and word(la)) or fb == "%" or la == "%" and not (fb in "~!<>")
         # a `%` directly followed by ~ ! < > is the remainder operator followed by a unary operator
         if la == "%" and fb in "~!<>":
@@ -232,6 +236,26 @@ def run(ck):
                 for c in (1, -1, -0x80000000):
                     acases.append((('b', o3, ('u', o1, ('u', o2, ('n', c))), ('n', 2)), [], [], False))
                     acases.append((('u', o1, ('b', o3, ('u', o2, ('n', c)), ('n', 7))), [], [], False))
+    # every binary operator directly followed by every unary operator (`1<>5` is `1 < >5`), tight and spaced
+    for o3 in X.BINOPS:
+        for o1 in X.UNOPS:
+            for c in (1, 0x1234, -1):
+                for lhs in (('n', 7), ('n', 0)):
+                    t = ('b', o3, lhs, ('u', o1, ('n', c)))
+                    acases.append((t, [], [], False)); acases.append((t, [], [], "tight")); acases.append((t, [], [], "tight"))
+    # every operator pair once more with its left-most leaf only known at link time (the deferred copy of the expression
+    # is what the linker evaluates)
+    def sym_leftmost(t):
+        if t[0] == 'n':
+            return ('y', 'lnk1'), t[1]
+        if t[0] == 'u':
+            r, v = sym_leftmost(t[2]); return ('u', t[1], r), v
+        if t[0] == 'b':
+            r, v = sym_leftmost(t[2]); return ('b', t[1], r, t[3]), v
+        r, v = sym_leftmost(t[1]); return ('t', r, t[2], t[3]), v
+    for t in (d2_all if thorough else rng.sample(d2_all, min(len(d2_all), 6000))):
+        t2, v = sym_leftmost(t)
+        acases.append((t2, [], [("lnk1", ('V', v))], False))
     texts = [asm_program(t, b, a, rng, full) for (t, b, a, full) in acases]
     a_payloads = [asm_case("z80", text=tx) for tx in texts]
     # spec expectation: symbols resolve through the final table
